@@ -1007,6 +1007,7 @@ class SSHConnection(SSHPacketHandler, asyncio.Protocol):
         self._auth_complete = False
         self._auth_final = False
         self._auth_request_seq = 0
+        self._auth_request_task: Optional['asyncio.Task[None]'] = None
         self._auth_begun_username: Optional[str] = None
         self._auth_methods = [b'none']
         self._auth_was_trivial = True
@@ -2550,7 +2551,14 @@ class SSHConnection(SSHPacketHandler, asyncio.Protocol):
                 self._auth.cancel()
                 self._auth = None
 
-            self.create_task(self._finish_userauth(
+            # This includes a begin_auth() still running for an earlier
+            # request, so that whatever it would do on completion (such
+            # as installing that user's authorized keys) can't take
+            # effect after authentication has moved on
+            if self._auth_request_task:
+                self._auth_request_task.cancel()
+
+            self._auth_request_task = self.create_task(self._finish_userauth(
                 self._auth_request_seq, begin_auth, method, packet))
 
     async def _finish_userauth(self, request_seq: int, begin_auth: bool,
